@@ -99,6 +99,18 @@ func templates() []tmpl {
 	add("pay-A-B", func(m *ledger.Model) *coin.Transaction { return pay(m, idA, idB, 0, nil, 1, 2, nil) })
 	add("pay-A-C", func(m *ledger.Model) *coin.Transaction { return pay(m, idA, idC, 0, nil, 1, 3, nil) })
 	add("pay-B-A", func(m *ledger.Model) *coin.Transaction { return pay(m, idB, idA, 0, nil, 1, 2, nil) })
+	// spends A's second output completely (no change back to the sender)
+	add("payall-A2-C", func(m *ledger.Model) *coin.Transaction {
+		ux := firstOut(m, idA, 1)
+		if ux == nil {
+			return nil
+		}
+		h, ok := accruedU64(m, *ux)
+		if !ok {
+			return nil
+		}
+		return build([]coin.UxOut{*ux}, []cipher.SecKey{idA.Sec}, []outSpec{{idC.Addr, ux.Body.Coins, h / 2}})
+	})
 	add("pay-A3-B", func(m *ledger.Model) *coin.Transaction { return pay(m, idA, idB, 2, nil, 1, 2, nil) })
 	add("pay-A2-C", func(m *ledger.Model) *coin.Transaction { return pay(m, idA, idC, 1, nil, 1, 2, nil) })
 	add("pay-G2-A", func(m *ledger.Model) *coin.Transaction { return pay(m, idG, idA, 1, nil, 1, 2, nil) })
@@ -207,6 +219,75 @@ func templates() []tmpl {
 			return []outSpec{{idA.Addr, 1<<63 + c/2, avail / 4}, {idB.Addr, 1<<63 + c/2, avail / 4}}
 		})
 	})
+	// three outputs: the first two sum to exactly 2^64 (a running 64-bit total passes through 0 in the MIDDLE of the sum), the third
+	// equals the input amount
+	add("wrap-coin-sum-mid-G", func(m *ledger.Model) *coin.Transaction {
+		return pay(m, idG, idA, 0, nil, 1, 2, func(ux coin.UxOut, _ []outSpec, avail uint64) []outSpec {
+			return []outSpec{{idA.Addr, 1 << 63, avail / 8}, {idB.Addr, 1 << 63, avail / 8}, {idC.Addr, ux.Body.Coins, avail / 8}}
+		})
+	})
+	// four outputs, overflow at the third addition, remainder added afterwards
+	add("wrap-coin-sum-mid4-G", func(m *ledger.Model) *coin.Transaction {
+		return pay(m, idG, idA, 0, nil, 1, 2, func(ux coin.UxOut, _ []outSpec, avail uint64) []outSpec {
+			c := ux.Body.Coins
+			if c < 4 || c%2 != 0 {
+				return nil
+			}
+			return []outSpec{{idA.Addr, 1 << 63, avail / 8}, {idB.Addr, c / 2, avail / 8}, {idC.Addr, 1 << 63, avail / 8}, {idA.Addr, c / 2, 0}}
+		})
+	})
+	add("wrap-hour-sum-mid-G", func(m *ledger.Model) *coin.Transaction {
+		return pay(m, idG, idA, 0, nil, 1, 2, func(ux coin.UxOut, outs []outSpec, avail uint64) []outSpec {
+			c := ux.Body.Coins
+			if c < 3e6 {
+				return nil
+			}
+			return []outSpec{{idA.Addr, 1e6, 1 << 63}, {idB.Addr, 1e6, 1 << 63}, {idC.Addr, c - 2e6, avail / 4}}
+		})
+	})
+	// output hours 2^64-1 and a small value: wraps to the small value inside a block; creates an output whose hours overflow once it earns anything
+	add("wrap-hour-sum-max-G", func(m *ledger.Model) *coin.Transaction {
+		return pay(m, idG, idA, 0, nil, 1, 2, func(ux coin.UxOut, outs []outSpec, avail uint64) []outSpec {
+			if len(outs) < 2 {
+				return nil
+			}
+			return []outSpec{{idA.Addr, outs[0].Coins, ^uint64(0)}, {idB.Addr, outs[1].Coins, avail/4 + 1}}
+		})
+	})
+	// spends [a normal output, an output whose accrued hours overflow (legacy exception: counts 0)]; the "overflow" variant hands on more
+	// hours than the normal input has, the "ok" variant half of them
+	legacy := func(num, den uint64) func(m *ledger.Model) *coin.Transaction {
+		return func(m *ledger.Model) *coin.Transaction {
+			var leg, norm *coin.UxOut
+			for _, id := range m.Order {
+				ux, ok := m.UTXO[id]
+				if !ok {
+					continue
+				}
+				if _, known := byAddr[ux.Body.Address]; !known {
+					continue
+				}
+				_, cls := ledger.Accrued(ux, m.Head().Head.Time)
+				u := ux
+				if cls == "final" && leg == nil {
+					leg = &u
+				} else if cls == "" && norm == nil && ux.Body.Hours > 10 && ux.Body.Hours < 1<<62 {
+					norm = &u
+				}
+			}
+			if leg == nil || norm == nil || leg.Body.Coins > 1<<62 || norm.Body.Coins > 1<<62 {
+				return nil
+			}
+			hn, ok := accruedU64(m, *norm)
+			if !ok || hn < 10 {
+				return nil
+			}
+			return build([]coin.UxOut{*norm, *leg}, []cipher.SecKey{byAddr[norm.Body.Address].Sec, byAddr[leg.Body.Address].Sec},
+				[]outSpec{{idC.Addr, norm.Body.Coins + leg.Body.Coins, hn / den * num}})
+		}
+	}
+	add("spend-legacy-overflow-creates-hours", legacy(3, 2))
+	add("spend-legacy-overflow-ok", legacy(1, 2))
 	add("create-hours-G", func(m *ledger.Model) *coin.Transaction {
 		return pay(m, idG, idA, 0, nil, 1, 1, func(ux coin.UxOut, outs []outSpec, avail uint64) []outSpec {
 			if avail == ^uint64(0) {
